@@ -28,24 +28,77 @@ IORA_SMAP1(iora_expmap, ExpiryEntry, ExpiryEntry_DEFAULT)
 IORA_SMAP1(iora_cachemap, CacheEntry, CacheEntry_DEFAULT)
 IORA_SMAP1_ITER(iora_cachemap, CacheEntry)
 static inline size_t iora_cachemap_size(const iora_cachemap *m) { return m->n; }
+/* the batch argument of setBatch: const unordered_map<string, vector<uint8_t>>& as a witness-key map on the SAME ghost key, iterated by cursor */
+IORA_SMAP1(iora_batchmap, iora_vec, iora_vec_DEFAULT)
+IORA_SMAP1_ITER(iora_batchmap, iora_vec)
+static inline bool iora_batchmap_empty(const iora_batchmap *m) { return m->n == 0; }
 typedef struct { uint32_t maxCacheSize; } KVStoreConfig;
 typedef struct { iora_kvmap _kv; iora_expmap _expiry; iora_cachemap _cache; int _mutex; int _cacheMutex; bool _shutdown; bool _wheel; KVStoreConfig _config; } KVStore;
 
 /* ---- writeLogEntry stub (the function is proved in unit kv_codec: normal return <=> the record reached the OS).  May fail (KVStoreException).
  * Ghost: number of calls, arguments of the last call, and the in-memory state of the ghost key AT THE MOMENT OF THE CALL. */
 unsigned G_log_calls; bool G_log_ok; char G_log_op; iora_skey G_log_key; iora_vec G_log_value; int64_t G_log_exp;
+unsigned G_logg_calls; bool G_logg_ok; char G_logg_op; iora_vec G_logg_value; int64_t G_logg_exp; bool G_log_anyfail;      /* the same for the GHOST key's record only */
 static inline void KVStore_writeLogEntry_stub(KVStore *self, char op, iora_skey key, iora_vec value, int64_t expiryMs)
 { (void)self; if (G_log_calls < 1000) G_log_calls++; G_log_op = op; G_log_key = key; G_log_value = value; G_log_exp = expiryMs;
-  if (nondet_bool()) { G_log_ok = false; iora_exc = EXC_KVStoreException; return; } G_log_ok = true; }
+  bool ok = nondet_bool();
+  if (key.is_g) { if (G_logg_calls < 1000) G_logg_calls++; G_logg_ok = ok; G_logg_op = op; G_logg_value = value; G_logg_exp = expiryMs; }
+  if (!ok) { G_log_ok = false; G_log_anyfail = true; iora_exc = EXC_KVStoreException; return; } G_log_ok = true; }
 /* toEpochMs: uninterpreted here (its arithmetic is unit kv_expiry); argument and result recorded */
 iora_tp G_toms_arg; int64_t G_toms_ret; bool G_toms_called;
 static inline int64_t KVStore_toEpochMs_stub(iora_tp tp) { G_toms_called = true; G_toms_arg = tp; G_toms_ret = nondet_i64(); return G_toms_ret; }
 /* timers: armTimerLocked returns some id (InvalidTimerId when the wheel does not accept); cancel recorded */
-unsigned G_arm_calls; iora_tp G_arm_expiry; TimerId G_arm_id; bool G_arm_key_g;
+unsigned G_arm_calls; iora_tp G_arm_expiry; TimerId G_arm_id; bool G_arm_key_g; unsigned G_armg_calls; TimerId G_armg_id; iora_tp G_armg_expiry;
 static inline TimerId KVStore_armTimerLocked_stub(KVStore *self, iora_skey key, iora_tp expiry)
-{ (void)self; if (G_arm_calls < 1000) G_arm_calls++; G_arm_expiry = expiry; G_arm_key_g = key.is_g; G_arm_id = nondet_u64(); return G_arm_id; }
+{ (void)self; if (G_arm_calls < 1000) G_arm_calls++; G_arm_expiry = expiry; G_arm_key_g = key.is_g; G_arm_id = nondet_u64(); if (key.is_g) { if (G_armg_calls < 1000) G_armg_calls++; G_armg_id = G_arm_id; G_armg_expiry = expiry; } return G_arm_id; }
 unsigned G_cancel_calls; TimerId G_cancel_id;
 static inline void KVStore_wheel_cancel(KVStore *self, TimerId id) { (void)self; if (G_cancel_calls < 1000) G_cancel_calls++; G_cancel_id = id; }
 static inline void KVStore_startTtlOrCleanup_stub(KVStore *self, int lock) { (void)lock; if (nondet_bool()) { iora_exc = EXC_KVStoreException; return; } self->_wheel = true; }
 static inline void KVStore_maybeCompact_stub(KVStore *self) { (void)self; }
 #define lock 0                                             /* the unique_lock object handed to startTtlOrCleanup: only noted */
+
+/* ---- coupling invariant on a store pointer (post.c: INV == KV_INV(&st)) */
+#define KV_INV(s) ((!(s)->_expiry.has || (s)->_kv.has) && ((s)->_config.maxCacheSize != 0 || !(s)->_cache.has) && \
+   (!(s)->_cache.has || ((s)->_kv.has && (s)->_cache.val.value.p == (s)->_kv.val.p && (s)->_cache.val.value.n == (s)->_kv.val.n \
+                         && (s)->_cache.val.expiry == ((s)->_expiry.has ? (s)->_expiry.val.expiry : IORA_TP_MAX))))
+#define KV_CACHE_WF(s) (!(s)->_cache.has || (s)->_cache.gpos < (s)->_cache.n)
+/* ---- loops of setBatch (both overloads): cursor over the batch; BC = cursor well-formed, GDONE = the ghost key's entry has been passed */
+#define KV_BC (iora_c.map == batch && iora_c.i <= batch->n && (!batch->has || batch->gpos < batch->n))
+#define KV_GDONE (batch->has && batch->gpos < iora_c.i)
+#define KV_KVIS(v) (self->_kv.has && self->_kv.val.p == (v).p && self->_kv.val.n == (v).n)
+#define KV_KV_ENTRY (self->_kv.has == __CPROVER_loop_entry(self->_kv.has) && self->_kv.val.p == __CPROVER_loop_entry(self->_kv.val.p) && self->_kv.val.n == __CPROVER_loop_entry(self->_kv.val.n))
+#define KV_EX_ENTRY (self->_expiry.has == __CPROVER_loop_entry(self->_expiry.has) && self->_expiry.val.expiry == __CPROVER_loop_entry(self->_expiry.val.expiry) \
+                     && self->_expiry.val.timerId == __CPROVER_loop_entry(self->_expiry.val.timerId))
+/* loop 1: validation of every entry */
+#define KV_LOOP_VALIDATE IORA_LC( \
+  __CPROVER_assigns(iora_c, iora_exc, batch->other) \
+  __CPROVER_loop_invariant(KV_BC && iora_exc == EXC_NONE) \
+  __CPROVER_loop_invariant(KV_GDONE ==> (batch->gkn >= 1 && batch->gkn <= MAX_KEY_LENGTH && batch->val.n <= MAX_VALUE_LENGTH)) \
+  __CPROVER_decreases(batch->n - iora_c.i))
+/* loop 2: in-memory application. Before the ghost entry: ghost key untouched; after it: reference-map update; INV at every iteration */
+#define KV_LOOP_APPLY(REF) IORA_LC( \
+  __CPROVER_assigns(iora_c, batch->other, self->_kv, self->_expiry, self->_cache, G_cancel_calls, G_cancel_id, G_arm_calls, G_arm_expiry, G_arm_id, G_arm_key_g, G_armg_calls, G_armg_id, G_armg_expiry) \
+  __CPROVER_loop_invariant(KV_BC && KV_INV(self) && KV_CACHE_WF(self)) \
+  __CPROVER_loop_invariant(KV_GDONE ==> (KV_KVIS(batch->val) && (REF))) \
+  __CPROVER_loop_invariant(!KV_GDONE ==> (KV_KV_ENTRY && KV_EX_ENTRY && G_armg_calls == 0)) \
+  __CPROVER_decreases(batch->n - iora_c.i))
+/* loop 3: one record per entry; stops at the first failed write */
+#define KV_LOOP_LOG(OP, EXTRA) IORA_LC( \
+  __CPROVER_assigns(iora_c, batch->other, iora_exc, G_log_calls, G_log_ok, G_log_op, G_log_key, G_log_value, G_log_exp, G_logg_calls, G_logg_ok, G_logg_op, G_logg_value, G_logg_exp, G_log_anyfail, G_toms_called, G_toms_arg, G_toms_ret) \
+  __CPROVER_loop_invariant(KV_BC && iora_exc == EXC_NONE && !G_log_anyfail && (EXTRA)) \
+  __CPROVER_loop_invariant(KV_GDONE ==> (G_logg_calls == 1 && G_logg_ok && G_logg_op == (OP) && G_logg_value.p == batch->val.p && G_logg_value.n == batch->val.n)) \
+  __CPROVER_loop_invariant(!KV_GDONE ==> G_logg_calls == 0) \
+  __CPROVER_decreases(batch->n - iora_c.i))
+/* loop 4: rollback after a failed write (erases every batch key); INV at every iteration */
+#define KV_LOOP_ROLLBACK IORA_LC( \
+  __CPROVER_assigns(iora_c, batch->other, self->_kv, self->_expiry, self->_cache, G_cancel_calls, G_cancel_id) \
+  __CPROVER_loop_invariant(KV_BC && KV_INV(self) && KV_CACHE_WF(self)) \
+  __CPROVER_decreases(batch->n - iora_c.i))
+#define IORA_LOOP_KVStore_setBatch_1 KV_LOOP_VALIDATE
+#define IORA_LOOP_KVStore_setBatch_2 KV_LOOP_APPLY(!self->_expiry.has)
+#define IORA_LOOP_KVStore_setBatch_3 KV_LOOP_LOG((char)83, 1)
+#define IORA_LOOP_KVStore_setBatch_4 KV_LOOP_ROLLBACK
+#define IORA_LOOP_KVStore_setBatch_ttl_1 KV_LOOP_VALIDATE
+#define IORA_LOOP_KVStore_setBatch_ttl_2 KV_LOOP_APPLY(self->_expiry.has && self->_expiry.val.expiry == expiry && self->_expiry.val.timerId == G_armg_id && G_armg_calls == 1 && G_armg_expiry == expiry)
+#define IORA_LOOP_KVStore_setBatch_ttl_3 KV_LOOP_LOG((char)69, !G_toms_called || G_toms_arg == expiry)
+#define IORA_LOOP_KVStore_setBatch_ttl_4 KV_LOOP_ROLLBACK
